@@ -2,6 +2,7 @@
 from __future__ import annotations
 
 import collections
+import random
 import re
 
 from vlib import add_repo_to_path, driver, gen, progen, render
@@ -92,7 +93,9 @@ def parse_symfile(text):
 def run_case(case) -> Outcome:
     rom, ir, files, defines = case["rom"], case["ir"], case.get("files") or {}, case.get("defines") or {}
     out = Outcome(evals=0, nontrivial=0, labels=[f"map:{rom}", f"defines:{len(defines)}"])
-    src, inc, _ = render.render(ir)
+    lseed = case.get("join_seed")
+    lay = render.Layout(random.Random(lseed), knobs=[k for k in render.KNOBS if k != "include"] + ["join"]) if lseed is not None and lseed % 3 == 0 else None
+    src, inc, _ = render.render(ir, lay)  # a third of the sources in a random layout: the front ends read them from a file
     allfiles = {**files, **inc}
     ref = driver.assemble_mem(src, rom=rom, files=allfiles, defines=defines)
     model = refasm.assemble(ir, rom=rom, files=model_files(files), defines=defines)
